@@ -42,23 +42,23 @@ var paramClass = map[string]HoleClass{
 	"SliceAssignment.name": ClsIdent, "SliceAssignment.index": ClsInt, "SliceAssignment.value": ClsStr, "SliceAssignment.defaultValue": ClsConst,
 	"FuncStart.name": ClsIdent, "FuncStart.params[*]": ClsIdent,
 	"Return.values[*].Value()": ClsStr,
-	"IfStart.condition": ClsBool, "ElseIfStart.condition": ClsBool, "ForCondition.condition": ClsBool,
+	"IfStart.condition":        ClsBool, "ElseIfStart.condition": ClsBool, "ForCondition.condition": ClsBool,
 	"Print.value[*]": ClsStr, "Print.values[*]": ClsStr, "Panic.value": ClsStr,
 	"WriteFile.path": ClsStr, "WriteFile.content": ClsStr, "WriteFile.append": ClsBool,
 	"UnaryOperation.expr": ClsBool, "UnaryOperation.operator": ClsOp,
 	"BinaryOperation.left": "T", "BinaryOperation.right": "T", "BinaryOperation.operator": ClsOp,
 	"Comparison.left": "T", "Comparison.right": "T", "Comparison.operator": ClsOp,
 	"LogicalOperation.left": ClsBool, "LogicalOperation.right": ClsBool, "LogicalOperation.operator": ClsOp,
-	"VarEvaluation.name": ClsIdent,
+	"VarEvaluation.name":           ClsIdent,
 	"SliceInstantiation.values[*]": ClsStr,
-	"SliceEvaluation.name": ClsSlice, "SliceEvaluation.index": ClsInt,
-	"SliceLen.name": ClsSlice,
+	"SliceEvaluation.name":         ClsSlice, "SliceEvaluation.index": ClsInt,
+	"SliceLen.name":         ClsSlice,
 	"StringSubscript.value": ClsStr, "StringSubscript.startIndex": ClsInt, "StringSubscript.endIndex": ClsInt,
 	"StringLen.value": ClsStr,
-	"Group.value": ClsStr,
-	"FuncCall.name": ClsIdent, "FuncCall.args[*]": ClsStr,
+	"Group.value":     ClsStr,
+	"FuncCall.name":   ClsIdent, "FuncCall.args[*]": ClsStr,
 	"AppCall.calls[*].Name()": ClsProg, "AppCall.calls[*].Args()[*]": ClsStr,
-	"Input.prompt": ClsStr,
+	"Input.prompt":     ClsStr,
 	"Copy.destination": ClsIdent, "Copy.source": ClsSlice,
 	"Exists.path": ClsStr, "ReadFile.path": ClsStr,
 	"StringToString.value": ClsStr,
@@ -89,27 +89,27 @@ func classOfOrigin(origin string, cellType HoleClass) HoleClass {
 // ---------------------------------------------------------------------------
 
 type Line struct {
-	Role    string
-	Method  string // exported method, or "helper:<name>" for helper routine bodies
-	Cell    string // "" or e.g. "int/==" for operator methods
+	Role     string
+	Method   string // exported method, or "helper:<name>" for helper routine bodies
+	Cell     string // "" or e.g. "int/==" for operator methods
 	CellType HoleClass
-	Em      Emission
-	Variant Tmpl // one choice-free variant of Em.T
-	NVar    int
-	Bash    *BashLine
-	Batch   *BatchLine
-	DataDep []string // hole origins whose surrounding text depends on their content
+	Em       Emission
+	Variant  Tmpl // one choice-free variant of Em.T
+	NVar     int
+	Bash     *BashLine
+	Batch    *BatchLine
+	DataDep  []string // hole origins whose surrounding text depends on their content
 }
 
 type Backend struct {
-	W     *World
-	Role  string
-	X     *Extractor
-	Lines []*Line
+	W         *World
+	Role      string
+	X         *Extractor
+	Lines     []*Line
 	Undecided []string
-	Driver  map[string]Tmpl    // literal context the driver puts around a parameter
-	Helpers map[string][]*Line // helper routine name -> body lines
-	Cells []CellResult
+	Driver    map[string]Tmpl    // literal context the driver puts around a parameter
+	Helpers   map[string][]*Line // helper routine name -> body lines
+	Cells     []CellResult
 }
 
 type CellResult struct {
